@@ -203,7 +203,7 @@ def verify_contract(contract, repo, callee_contracts, models_factory, max_paths=
             call = contract.setup(I)
             for spec in contract.loops.values():
                 spec.call = call
-            fn = resolve_function(I, contract.key, call.enclosing)
+            fn = call.ctx.get("fn") or resolve_function(I, contract.key, call.enclosing)
             try:
                 try:
                     rv = I.run_closure(fn, call.args, call.kwargs)
